@@ -204,6 +204,27 @@ def run(chk: Check) -> None:
     chk.ob("R11.2", "CFG._edge_key:between-source-and-target", bool(src) and bool(tgt) and sub_src, ek.loc(),
            "_edge_key must search the parallel edges from edge.source to edge.target "
            "(self._nxg[edge.source][edge.target])", 2)
+    mem = [n for n in walk_no_nested(ek.node) if isinstance(n, ast.Compare) and len(n.ops) == 1
+           and isinstance(n.ops[0], (ast.In, ast.NotIn))]
+    chk.ob("R11.2", "CFG._edge_key:membership-tests-positive", bool(mem) and all(
+        isinstance(n.ops[0], ast.In) for n in mem), ek.loc(),
+        "_edge_key must search only when the source is in the graph, the target among its successors "
+        "and the edge datum has a label: %s" % [unparse(n) for n in mem], 2)
+    fl_ek = Flow(ek.node)
+    if cmps:
+        eqtrue = fl_ek.branch(cmps[0], True) if id(cmps[0]) in fl_ek.by_ast else None
+        keyrets = [r for r in walk_no_nested(ek.node) if isinstance(r, ast.Return) and r.value is not None
+                   and not (isinstance(r.value, ast.Constant) and r.value.value is None)]
+        okk = len(keyrets) == 1
+        if okk:
+            # the key returned is the multigraph key of the parallel edge whose label matched
+            rn = fl_ek.node_of(keyrets[0])
+            label_tests = {n for n, i in fl_ek.info.items() if i.kind == "test" and i.ast is cmps[0]}
+            true_br = {b for t in label_tests for b in fl_ek.g.successors(t)
+                       if fl_ek.info[b].kind == "branch" and fl_ek.info[b].value}
+            okk = bool(true_br) and fl_ek.path_avoiding(fl_ek.entry, rn, true_br) is None
+        chk.ob("R11.2", "CFG._edge_key:returns-key-of-matching-edge", okk, ek.loc(),
+               "_edge_key must return the key exactly on the path where the stored label equals edge.label", 2)
     rets = [r for r in walk_no_nested(ek.node) if isinstance(r, ast.Return)]
     none_default = any(r.value is None or (isinstance(r.value, ast.Constant) and r.value.value is None)
                        for r in rets)
